@@ -8,7 +8,8 @@ from .. import determinism
 from ..flow import ReachingDefs, names_loaded
 from ..program import (AnalysisError, call_name, const_str, dotted, kwarg,
                        norm_key, unparse, walk_no_nested)
-from ..util import cursor_execute_calls, nodes_with_call, subscript_const
+from ..util import (cursor_execute_calls, is_self_attr, nodes_with_call,
+                    subscript_const)
 
 EXPLANATION = (
     'Decided clauses: R-C14.1 (order taint) no iteration over a set-valued '
@@ -24,7 +25,9 @@ EXPLANATION = (
     'from generate_mutations_info(...)[\'sql\']; '
     'R-C14.2 also: the capture path\'s condition on params agrees with what cursor.execute does (or _prepare_sql normalises () to None); R-C14.4 preview and execution read the same SQL variable (known finding: task.sql vs batches).'
     ' '
-    'R-C14.5 inside the per-task loop of an evolutions batch, whether task.execute(sql=...) runs depends only on that SQL.')
+    'R-C14.5 inside the per-task loop of an evolutions batch, whether task.execute(sql=...) runs depends only on that SQL.'
+    ' '
+    'R-C14.6 DatabaseState.clone() copies _tables at least as deep as add_table() nests mutable containers (depth read from the code on both sides).')
 NOT_DECIDED = (
     'Statement-by-statement equality of preview and execution for every '
     'upgrade, and byte-identical output across hash seeds (needs execution '
@@ -525,7 +528,89 @@ def r5_task_sql_execution_depends_only_on_sql(ctx, rule_id='R-C14.5'):
     ctx.floor('task.execute(sql=...) calls in execute_tasks', n, 1)
 
 
+def _copy_depth(e):
+    """How many container levels of the argument are copied by e."""
+    if isinstance(e, ast.Call):
+        n = call_name(e)
+        if n == 'deepcopy':
+            return 99
+        if n in ('dict', 'OrderedDict', 'list', 'set') and e.args:
+            a = e.args[0]
+            if isinstance(a, (ast.GeneratorExp, ast.ListComp)):
+                elt = a.elt
+                if isinstance(elt, ast.Tuple) and len(elt.elts) == 2:
+                    elt = elt.elts[1]
+                return 1 + _copy_depth(elt)
+            return 1
+        if n == 'copy' and isinstance(e.func, ast.Attribute):
+            return 1
+        if n == 'clone':
+            return 99
+    if isinstance(e, ast.DictComp):
+        return 1 + _copy_depth(e.value)
+    if isinstance(e, (ast.ListComp, ast.SetComp)):
+        return 1 + _copy_depth(e.elt)
+    return 0
+
+
+def _literal_depth(e):
+    if isinstance(e, ast.Dict):
+        return 1 + max([_literal_depth(v) for v in e.values] or [0])
+    if isinstance(e, (ast.List, ast.Set)):
+        return 1 + max([_literal_depth(v) for v in e.elts] or [0])
+    if isinstance(e, ast.Call) and call_name(e) in ('dict', 'OrderedDict',
+                                                    'list', 'set'):
+        return 1
+    return 0
+
+
+def r6_state_clone_shares_nothing(ctx, rule_id='R-C14.6'):
+    """The preview SQL (task.sql) is generated on
+    evolver.database_state.clone(), the executed SQL afterwards on the live
+    state.  The clone must not share a mutable container with the original:
+    index bookkeeping done while generating the preview would otherwise land
+    in the live state, and the second generation - asking "does this index
+    already exist?" - emits nothing for statements the preview printed.
+    The nesting depth of DatabaseState._tables is read from add_table(); the
+    copy made in clone() must be at least that deep."""
+    ctx.rule(rule_id)
+    p = ctx.program
+    cls = p.cls('db.state', 'DatabaseState')
+    need = 0
+    for f in cls.methods.values():
+        for n in walk_no_nested(f.node):
+            if isinstance(n, ast.Assign) and any(
+                    isinstance(t, ast.Subscript) and
+                    is_self_attr(t.value, '_tables') for t in n.targets):
+                need = max(need, 1 + _literal_depth(n.value))
+    ctx.floor('container nesting depth of DatabaseState._tables', need, 2)
+    f = cls.methods['clone']
+    got = None
+    for n in walk_no_nested(f.node):
+        if isinstance(n, ast.Assign) and any(
+                isinstance(t, ast.Attribute) and t.attr == '_tables'
+                for t in n.targets):
+            got = (_copy_depth(n.value), n)
+    if got is None:
+        raise AnalysisError('%s: DatabaseState.clone no longer assigns '
+                            '_tables' % rule_id)
+    depth, node = got
+    if depth >= need:
+        ctx.ok(f, 'clone() copies _tables to depth %s (needed: %d)' % (
+            'all' if depth >= 99 else depth, need), node)
+    else:
+        ctx.finding(f, node, 'DatabaseState.clone() copies _tables only %d '
+                    'level(s) deep (%s) but the structure add_table() builds '
+                    'is %d levels of mutable containers: the clone shares '
+                    'its per-table index dictionaries with the live state, '
+                    'so generating the preview SQL changes what the '
+                    'execution pass finds' % (
+                        depth, ' '.join(unparse(node.value).split())[:80],
+                        need), key='state-clone-shallow')
+
+
 def run(ctx):
+    r6_state_clone_shares_nothing(ctx)
     r5_task_sql_execution_depends_only_on_sql(ctx)
     r1_determinism(ctx)
     r2_capture_execute(ctx)
